@@ -1,1 +1,331 @@
-/-! # C14 — property theorems (not built yet) -/
+import RsMatterVerif.Lemmas.Chunk
+/-!
+# C14 — a chunked answer carries the complete result exactly once
+
+Theorems over `Model/Chunk.lean` (the chunking algorithm of `ReportDataResponder`, attribute
+section, repaired code: the array end is written from a structural reserve).
+
+Under `Fits` (every report the algorithm may have to place in an empty message fits one — stated,
+decidable) and a sane configuration `Cfg.WF`:
+* `concat_eq_items`: the reports of all chunks, concatenated, are the reports of the selected items —
+  each item once, in request order, a list either whole or as "empty list + one append per element";
+  `reassemble_allPieces`: they reassemble to the original items (lists with all their elements in
+  order) — reports are never divided, so lists are split only at element boundaries;
+* `each_chunk_bounded`, `chunk_size_accounts`: every message is at most `cap` long and its length is
+  header + array start + its reports + trailer;
+* `only_last_ends`: MoreChunkedMessages is set on all messages but the last;
+* `progress`: every message except possibly the last carries at least one report (the last one is
+  empty only when the header of the end-of-list probe did not fit the previous message), so the
+  number of messages is bounded by the number of reports + 1: `chunk_count_bounded`; `fits_ok`: the
+  algorithm ends with an answer (no `NoSpace`, no endless loop).
+Without `Fits`: `oversize_item_loops` (the retry loop of the code never ends — it keeps sending
+empty chunks), hence `C14_full_fails`.
+The defect of the unrepaired code: `exact_fit_fails_before_fix`.
+-/
+namespace C14
+open Chunk
+
+/-- what a well-behaved answer `cs` to `items` looks like -/
+structure Good (c : Cfg) (items : List Item) (cs : List ChunkOut) : Prop where
+  /-- complete, exactly once, in order -/
+  content : ∃ splits, splits.length = items.length ∧ cs.flatMap (·.pieces) = allPieces items splits
+  /-- fits the transport's maximum size -/
+  bounded : ∀ ch ∈ cs, ch.size ≤ c.cap
+  /-- only the last message ends the interaction -/
+  lastEnds : ∃ front last, cs = front ++ [last] ∧ last.more = false ∧ ∀ ch ∈ front, ch.more = true
+  /-- every message but the last carries at least one report -/
+  progress : ∀ ch ∈ cs.dropLast, ch.pieces ≠ []
+
+/-- an `ok` result comes from a final state satisfying the invariant -/
+theorem chunks_ok_shape {c : Cfg} {items : List Item} {cs : List ChunkOut} (hw : c.WF)
+    (h : chunks c items = .ok cs) :
+    ∃ s, putItems c items (St.init c) = .ok s ∧ Inv c s ∧
+      cs = ({ pieces := s.cur.reverse, size := s.used + c.close + c.trailerDone, more := false } :: s.done).reverse := by
+  unfold chunks at h
+  cases hp : putItems c items (St.init c) with
+  | error err => rw [hp] at h; simp at h
+  | ok s =>
+    rw [hp] at h
+    simp only [finish] at h
+    split at h
+    · injection h with h
+      exact ⟨s, rfl, (putItems_ok hw items _ s (inv_init c hw) hp).1, h.symm⟩
+    · simp at h
+
+theorem concat_eq_items {c : Cfg} {items : List Item} {cs : List ChunkOut} (hw : c.WF)
+    (h : chunks c items = .ok cs) :
+    ∃ splits, splits.length = items.length ∧ cs.flatMap (·.pieces) = allPieces items splits := by
+  obtain ⟨s, hp, _, rfl⟩ := chunks_ok_shape hw h
+  obtain ⟨_, splits, hl, hf⟩ := putItems_ok hw items _ s (inv_init c hw) hp
+  refine ⟨splits, hl, ?_⟩
+  have : (St.init c).flat = [] := by simp [St.flat, St.init]
+  rw [this, List.nil_append] at hf
+  rw [← hf]
+  simp [St.flat, List.flatMap_append]
+
+theorem each_chunk_bounded {c : Cfg} {items : List Item} {cs : List ChunkOut} (hw : c.WF)
+    (h : chunks c items = .ok cs) : ∀ ch ∈ cs, ch.size ≤ c.cap := by
+  have hok := h
+  obtain ⟨s, hp, hinv, rfl⟩ := chunks_ok_shape hw h
+  intro ch hch
+  simp only [List.mem_reverse, List.mem_cons] at hch
+  rcases hch with rfl | hch
+  · simp only
+    have h1 := hinv.usedLe
+    have h2 := hw.trailerDone
+    have h3 := limit_le c hw
+    omega
+  · exact (hinv.doneOk ch hch).2.1
+
+/-- the length of every message is header + array start + its reports + its trailer -/
+theorem chunk_size_accounts {c : Cfg} {items : List Item} {cs : List ChunkOut} (hw : c.WF)
+    (h : chunks c items = .ok cs) : ∀ ch ∈ cs,
+    ch.size = c.hdr + c.arrOpen + sumSizes ch.pieces +
+      (if ch.more then c.trailerMore else c.close + c.trailerDone) := by
+  obtain ⟨s, hp, hinv, rfl⟩ := chunks_ok_shape hw h
+  intro ch hch
+  simp only [List.mem_reverse, List.mem_cons] at hch
+  rcases hch with rfl | hch
+  · simp only [sumSizes_reverse]
+    have := hinv.usedEq
+    simp; omega
+  · obtain ⟨h1, _, h3⟩ := hinv.doneOk ch hch
+    rw [h3, h1]; simp
+
+theorem only_last_ends {c : Cfg} {items : List Item} {cs : List ChunkOut} (hw : c.WF)
+    (h : chunks c items = .ok cs) :
+    ∃ front last, cs = front ++ [last] ∧ last.more = false ∧ ∀ ch ∈ front, ch.more = true := by
+  obtain ⟨s, hp, hinv, rfl⟩ := chunks_ok_shape hw h
+  refine ⟨s.done.reverse, { pieces := s.cur.reverse, size := s.used + c.close + c.trailerDone, more := false },
+    by simp, rfl, ?_⟩
+  intro ch hch
+  exact (hinv.doneOk ch (List.mem_reverse.mp hch)).1
+
+theorem progress {c : Cfg} {items : List Item} {cs : List ChunkOut} (hw : c.WF)
+    (h : chunks c items = .ok cs) : ∀ ch ∈ cs.dropLast, ch.pieces ≠ [] := by
+  obtain ⟨s, hp, hinv, rfl⟩ := chunks_ok_shape hw h
+  intro ch hch
+  simp only [List.reverse_cons, List.dropLast_concat] at hch
+  exact hinv.doneNonempty ch (List.mem_reverse.mp hch)
+
+/-- **Under `Fits` the algorithm ends with an answer** (no `NoSpace`, no endless loop) -/
+theorem fits_ok {c : Cfg} {items : List Item} (hw : c.WF) (hs : c.close ≤ c.structReserve)
+    (hf : Fits c items) : ∃ cs, chunks c items = .ok cs := by
+  obtain ⟨s, hp⟩ := putItems_fits items (St.init c) hf
+  have hinv := (putItems_ok hw items _ s (inv_init c hw) hp).1
+  unfold chunks
+  rw [hp]
+  simp only [finish]
+  have := hinv.usedLe
+  rw [if_pos (by omega)]
+  exact ⟨_, rfl⟩
+
+/-- **C14 on the model, under `Fits`** -/
+theorem C14_partial {c : Cfg} {items : List Item} (hw : c.WF) (hs : c.close ≤ c.structReserve)
+    (hf : Fits c items) : ∃ cs, chunks c items = .ok cs ∧ Good c items cs := by
+  obtain ⟨cs, h⟩ := fits_ok hw hs hf
+  exact ⟨cs, h, ⟨concat_eq_items hw h, each_chunk_bounded hw h, only_last_ends hw h, progress hw h⟩⟩
+
+/-- the configuration of a read over UDP with the repaired code -/
+def readCfg : Cfg :=
+  { cap := 1178, reserve := Consts.longReadsReserve, structReserve := Consts.longReadsStructReserve,
+    hdr := 1, arrOpen := 2, close := 1, trailerMore := 7, trailerDone := 6 }
+
+theorem readCfg_wf : readCfg.WF := by
+  refine ⟨?_, ?_, ?_, ?_⟩ <;> decide
+
+example : readCfg.WF ∧ readCfg.close ≤ readCfg.structReserve ∧
+    Fits readCfg [.scalar 0 1147, .list 16 2000 26 [128, 128, 1147] 23] :=
+  ⟨readCfg_wf, by decide, by intro it hit; simp at hit; rcases hit with rfl | rfl <;> decide⟩
+
+set_option maxRecDepth 8000 in
+/-- an item that fills the message exactly is chunked, not failed -/
+example : chunks readCfg [.scalar 0 500, .scalar 1 647] =
+    .ok [{ pieces := [.scalar 0 500, .scalar 1 647], size := 1157, more := false }] := by rfl
+
+set_option maxRecDepth 8000 in
+example : chunks readCfg [.scalar 0 500, .scalar 1 648] =
+    .ok [{ pieces := [.scalar 0 500], size := 510, more := true },
+         { pieces := [.scalar 1 648], size := 658, more := false }] := by rfl
+
+/-! ## reassembly: lists come back complete and in order -/
+
+/-- the content of an item: its id and, for a list, its elements -/
+def content : Item → Nat × Option (List Nat)
+  | .scalar id _ => (id, none)
+  | .list id _ _ elems _ => (id, some elems)
+
+/-- the element reports at the head of a stream that append to list `id` -/
+def takeElems (id : Nat) : List Piece → List Nat × List Piece
+  | .listElem id' _ sz :: rest =>
+    if id' = id then ((takeElems id rest).1 |> (sz :: ·), (takeElems id rest).2)
+    else ([], .listElem id' 0 sz :: rest)
+  | rest => ([], rest)
+
+theorem takeElems_length (id : Nat) : ∀ ps : List Piece, (takeElems id ps).2.length ≤ ps.length := by
+  intro ps
+  induction ps with
+  | nil => simp [takeElems]
+  | cons p ps ih =>
+    cases p with
+    | listElem id' k sz =>
+      simp only [takeElems]
+      split
+      · simp; omega
+      · simp
+    | scalar _ _ => simp [takeElems]
+    | wholeList _ _ _ => simp [takeElems]
+    | listStart _ _ => simp [takeElems]
+
+/-- what a client reconstructs from the stream of reports -/
+def reassemble : List Piece → List (Nat × Option (List Nat))
+  | [] => []
+  | .scalar id _ :: rest => (id, none) :: reassemble rest
+  | .wholeList id _ elems :: rest => (id, some elems) :: reassemble rest
+  | .listStart id _ :: rest =>
+    have := takeElems_length id rest
+    (id, some (takeElems id rest).1) :: reassemble (takeElems id rest).2
+  | .listElem _ _ _ :: rest => reassemble rest
+termination_by ps => ps.length
+decreasing_by all_goals simp_wf <;> omega
+
+/-- a stream that does not begin with an element report -/
+def NoElemHead : List Piece → Prop
+  | .listElem _ _ _ :: _ => False
+  | _ => True
+
+theorem takeElems_elemPieces (id : Nat) : ∀ (es : List Nat) (k : Nat) (rest : List Piece),
+    NoElemHead rest → takeElems id (elemPieces id k es ++ rest) = (es, rest) := by
+  intro es
+  induction es with
+  | nil =>
+    intro k rest hr
+    simp only [elemPieces, List.zipIdx_nil, List.map_nil, List.nil_append]
+    cases rest with
+    | nil => simp [takeElems]
+    | cons p ps =>
+      cases p with
+      | listElem _ _ _ => simp [NoElemHead] at hr
+      | scalar _ _ => simp [takeElems]
+      | wholeList _ _ _ => simp [takeElems]
+      | listStart _ _ => simp [takeElems]
+  | cons e es ih =>
+    intro k rest hr
+    rw [elemPieces_cons]
+    simp only [List.cons_append, takeElems, if_true]
+    rw [ih (k + 1) rest hr]
+
+theorem noElemHead_allPieces : ∀ (its : List Item) (bs : List Bool), NoElemHead (allPieces its bs) := by
+  intro its
+  cases its with
+  | nil => intro bs; simp [allPieces, NoElemHead]
+  | cons it its =>
+    intro bs
+    cases bs with
+    | nil => cases it <;> simp [allPieces, Item.pieces, NoElemHead]
+    | cons b bs =>
+      cases it with
+      | scalar _ _ => simp [allPieces, Item.pieces, NoElemHead]
+      | list _ _ _ _ _ => cases b <;> simp [allPieces, Item.pieces, NoElemHead]
+
+/-- **Reassembly**: whatever the whole/streamed choices, the stream of reports reassembles to the
+selected items, each once, in order, lists with all their elements in order. -/
+theorem reassemble_allPieces : ∀ (its : List Item) (bs : List Bool),
+    reassemble (allPieces its bs) = its.map content := by
+  intro its
+  induction its with
+  | nil => intro bs; simp [allPieces, reassemble]
+  | cons it its ih =>
+    intro bs
+    have key : ∀ (b : Bool) (rest : List Piece), NoElemHead rest →
+        reassemble (it.pieces b ++ rest) = content it :: reassemble rest := by
+      intro b rest hr
+      cases it with
+      | scalar id sz => simp [Item.pieces, reassemble, content]
+      | list id whole empty elems probe =>
+        cases b with
+        | false => simp [Item.pieces, reassemble, content]
+        | true =>
+          rw [pieces_split_eq]
+          simp only [List.cons_append, reassemble, content]
+          rw [takeElems_elemPieces id elems 0 rest hr]
+    cases bs with
+    | nil =>
+      simp only [allPieces, List.map_cons]
+      rw [key false _ (noElemHead_allPieces its []), ih []]
+    | cons b bs =>
+      simp only [allPieces, List.map_cons]
+      rw [key b _ (noElemHead_allPieces its bs), ih bs]
+
+/-- the client's view of a chunked answer is exactly the selected items -/
+theorem reassembled_answer {c : Cfg} {items : List Item} {cs : List ChunkOut} (hw : c.WF)
+    (h : chunks c items = .ok cs) : reassemble (cs.flatMap (·.pieces)) = items.map content := by
+  obtain ⟨splits, _, hf⟩ := concat_eq_items hw h
+  rw [hf, reassemble_allPieces]
+
+/-! ## termination bound -/
+
+theorem length_le_flatMap_of_nonempty : ∀ (cs : List ChunkOut), (∀ ch ∈ cs, ch.pieces ≠ []) →
+    cs.length ≤ (cs.flatMap (·.pieces)).length := by
+  intro cs
+  induction cs with
+  | nil => intro _; simp
+  | cons ch cs ih =>
+    intro h
+    have h1 : 0 < ch.pieces.length := List.length_pos_iff.mpr (h ch (by simp))
+    have h2 := ih (fun x hx => h x (by simp [hx]))
+    simp only [List.flatMap_cons, List.length_append, List.length_cons]
+    omega
+
+/-- the number of messages is at most the number of reports plus one -/
+theorem chunk_count_bounded {c : Cfg} {items : List Item} {cs : List ChunkOut} (hw : c.WF)
+    (h : chunks c items = .ok cs) : cs.length ≤ (cs.flatMap (·.pieces)).length + 1 := by
+  have hp := progress hw h
+  obtain ⟨front, last, rfl, _, _⟩ := only_last_ends hw h
+  simp only [List.dropLast_concat] at hp
+  have := length_le_flatMap_of_nonempty front hp
+  simp only [List.length_append, List.length_singleton, List.flatMap_append]
+  omega
+
+/-! ## outside `Fits`, and the defect of the unrepaired code -/
+
+/-- a report that does not fit an empty message: the retry loop of the code never ends (the model
+reports `loops`; the implementation keeps sending empty chunks) -/
+theorem oversize_item_loops {c : Cfg} (hw : c.WF) (id sz : Nat)
+    (h : c.limit < c.hdr + c.arrOpen + sz) : chunks c [.scalar id sz] = .error .loops := by
+  have hp := put_oversize (inv_init c hw) (.scalar id sz) (by simpa [Piece.size] using h)
+  simp only [chunks, putItems, putItem, hp]
+
+/-- **Full statement** (for every combination of value sizes): refuted by `oversize_item_loops` -/
+def C14_full : Prop :=
+  ∀ (c : Cfg) (items : List Item), c.WF → c.close ≤ c.structReserve →
+    ∃ cs, chunks c items = .ok cs ∧ Good c items cs
+
+theorem C14_full_fails : ¬ C14_full := by
+  intro h
+  obtain ⟨cs, hc, _⟩ := h readCfg [.scalar 0 1148] readCfg_wf (by decide)
+  have : chunks readCfg [.scalar 0 1148] = .error .loops :=
+    oversize_item_loops readCfg_wf 0 1148 (by decide)
+  rw [this] at hc
+  cases hc
+
+/-- the configuration before `fix: long reads: … structural reserve` -/
+def oldCfg : Cfg := { readCfg with structReserve := 0 }
+
+set_option maxRecDepth 8000 in
+/-- **Defect of the unrepaired code**: a value that fills the message exactly (it fits an empty
+message: `Fits` holds) made the array end fail with `NoSpace` — the whole read failed instead of
+being answered; the repaired configuration answers it. -/
+theorem exact_fit_fails_before_fix :
+    oldCfg.WF ∧ Fits oldCfg [.scalar 0 1151] ∧ chunks oldCfg [.scalar 0 1151] = .error .noSpace ∧
+    chunks readCfg [.scalar 0 1147] = .ok [{ pieces := [.scalar 0 1147], size := 1157, more := false }] := by
+  refine ⟨⟨?_, ?_, ?_, ?_⟩, ?_, ?_, ?_⟩
+  · decide
+  · decide
+  · decide
+  · decide
+  · intro it hit; simp at hit; subst hit; decide
+  · rfl
+  · rfl
+
+end C14
